@@ -371,6 +371,9 @@ impl<'a> Sim<'a> {
             .iter()
             .find(|p| sig.starts_with(**p))
             .map(|_| format!("C06/outcome/{}", &sig[4..]));
+        // an abandoned QoS 2 publish still owes its PUBREL (C06: "QoS 2 sends exactly one PUBREL ...
+        // after a PUBREC with reason < 0x80" - whether or not anybody still waits for the result)
+        let alias = if sig == "C15/abandoned-qos2-exchange-never-finished" { Some("C06/pubrel-missing/abandoned-publish".to_string()) } else { alias };
         if self.failures.len() < 64 {
             self.failures.push(Failure { sig, msg: msg.clone() });
         }
